@@ -17,8 +17,9 @@ import (
 type c16NativeCase struct {
 	agent, skill, sub string // sub: documented base below root (project or user)
 	user              bool
-	customKind        int // 0 none, 1 absolute --path, 2 relative --path
-	baseState         int // as in the symbolic loop: 0 absent, 1 dir, 2 file, 4..6 prior installation
+	customKind        int    // 0 none, 1 absolute --path, 2 relative --path
+	baseState         int    // as in the symbolic loop: 0 absent, 1 dir, 2 file, 4..6 prior installation
+	umask             string // "" (inherited, 022) or an octal umask the installer process runs under
 }
 
 // snapshotTree lists every entry under root as "path mode sha" (directories: "path/ mode").
@@ -110,6 +111,9 @@ func runC16Native(c *Ctx, repo, scratch, srcRoot string, tree *embTree, cases []
 		}
 		before := snapshotTree(root)
 		cmd := exec.Command(cli, args...)
+		if cs.umask != "" {
+			cmd = exec.Command("sh", append([]string{"-c", "umask " + cs.umask + "; exec \"$0\" \"$@\"", cli}, args...)...)
+		}
 		cmd.Dir = work
 		cmd.Env = []string{"HOME=" + home, "PATH=/usr/bin:/bin", "PWD=" + work}
 		outB, runErr := cmd.CombinedOutput()
@@ -117,6 +121,9 @@ func runC16Native(c *Ctx, repo, scratch, srcRoot string, tree *embTree, cases []
 		after := snapshotTree(root)
 		ran++
 		caseName := fmt.Sprintf("native custom-kind=%d user=%v base-state=%d", cs.customKind, cs.user, cs.baseState)
+		if cs.umask != "" {
+			caseName += " umask=" + cs.umask
+		}
 		art := map[string]any{"args": args, "cwd": "<root>/work/proj", "home": "<root>/home/u", "output": strings.ReplaceAll(out, root, "<root>"), "after": after}
 		if cs.baseState == 2 {
 			if runErr == nil {
